@@ -382,6 +382,10 @@ def impl(seed):
     I["enc"] = {
         cs: Template("${v}", output_encoding=cs, encoding_errors="htmlentityreplace").render for cs in CHARSETS
     }
+    # the same through a def rendered on its own: get_def(name).render() uses the template's output settings too
+    I["encdef"] = {
+        cs: Template("<%def name='d()'>${v}</%def>", output_encoding=cs, encoding_errors="htmlentityreplace").get_def("d").render for cs in CHARSETS
+    }
     _IMPL[key] = I
     return I
 
@@ -567,11 +571,13 @@ def check_string(s, st, I, tmpl=True, parts=ALL_PARTS, charsets=None, decs=None)
     # encoding error handler: str.encode and Template.render
     for cs in (charsets or CHARSETS) if "enc" in parts else ():
         prev = None
-        for route in ("direct", "template") if tmpl else ("direct",):
+        for route in ("direct", "template", "template-def") if tmpl else ("direct",):
             if route == "direct":
                 ok, out = call(s.encode, cs, "htmlentityreplace")
-            else:
+            elif route == "template":
                 ok, out = call(I["enc"][cs], v=s)
+            else:
+                ok, out = call(I["encdef"][cs], v=s)
             nev += 1
             op = "enc." + cs
             if not ok:
@@ -580,7 +586,7 @@ def check_string(s, st, I, tmpl=True, parts=ALL_PARTS, charsets=None, decs=None)
             if not isinstance(out, bytes):
                 viol.append((op, route, "type", "encoding does not give bytes", type(out).__name__))
                 continue
-            if route == "template" and prev == out:
+            if route != "direct" and prev == out:
                 continue
             prev = out
             orc["htmlentityreplace"] += 1
